@@ -250,6 +250,9 @@ func runC04(r *core.Run) {
 		})
 	}
 	if r.Variant == "" {
+		// the whole workload once more in the GOARCH=386 build of this monitor (see ./check)
+		r.RunVariantChild("arch386@16", 30*time.Minute, false)
+		r.Obs("arch386_child", "run")
 		for _, v := range []string{"rev@3", "encfirst+rev@1", "warm@4", "genfirst+rot1@2"} {
 			r.RunVariantChild(v, 10*time.Minute, false)
 		}
